@@ -32,7 +32,7 @@ TECHNIQUE = (
 LEVEL_TEXT = (
     "Lean theorems for all n / all options: finite differences (3x3 prepend/append + circular) = documented banded matrix, "
     "lifted to any axis (I (x) A (x) I) and any axes subset (block column); stacks = block matrices; circular convolution "
-    "with integer centre = circulant, from_operator reproduces a shift-invariant operator; convolution modes = windows of "
+    "with integer centre = circulant (and = the DFT-domain evaluation of the code: convolution theorem), from_operator reproduces a shift-invariant operator; convolution modes = windows of "
     "the Toeplitz matrix; slice/pad/crop/sum/transpose/reshape index maps (Crop = left inverse and adjoint of zero Pad); "
     "X-ray scatter-add mass conservation; DFT shape bookkeeping, inversion for unpadded transforms; fftfreq grid. "
     "The model is tied to scico by comparing dense matrices of the real operators over the configuration grid."
